@@ -549,12 +549,12 @@ func normalizeValue(
 		return normalizeMapValue(opts, ctx, v)
 	case reflect.Struct:
 		if v, ok := tryTConfig(v); ok {
+			// A *Config embedded in the value to merge belongs to the caller:
+			// normalize a copy, so that neither its context (path, parent) nor
+			// its contents can be changed by attaching it to the normalized
+			// tree or by merging further (dotted) keys into it.
 			c := v.Addr().Interface().(*Config)
-			ret := cfgSub{c}
-			if ret.Context().parent != ctx.parent {
-				ret.SetContext(ctx)
-			}
-			return ret, nil
+			return cfgSub{c}.cpy(ctx), nil
 		}
 
 		return normalizeStructValue(opts, ctx, v)
